@@ -532,3 +532,11 @@ def r17_into(text):
 
 
 REWRITES['R17'] = r17_into
+
+def r19_empty_vec(text):
+    """R19: `vec![]` -> `Vec::new()` (the empty-vector macro; Verus has no spec for the macro form)."""
+    text, n = re.subn(r'\bvec!\[\s*\]', 'Vec::new()', text)
+    return text, n
+
+
+REWRITES['R19'] = r19_empty_vec
